@@ -197,7 +197,47 @@ def inst_emit_guards(cx, iid):
                 inst.violation(b.path, "alloc accounting", "alloc is updated by `%s`, expected alloc + alloc_size(len)" % v[:100], at=b.span_at(l))
 
 
+def inst_readiness_siblings(cx, iid):
+    """T4/T1x: the readiness tests at arrival (handle_datagram) are the same predicates as the tests
+    at delivery / window advance (receive): channel ready iff lead == 0 or lead > distance from the
+    CHANNEL base; window ready iff lead == 0 or lead > distance from the WINDOW base.  If arrival
+    under-reports readiness, receive() never looks at the packet and the window later steps over it."""
+    R = cx.R
+    with cx.instance(iid, "T4 SIBLING + T1x", "arrival-time readiness flags use the same predicates as delivery and window advance", floor=2) as inst:
+        b = R.body("half_connection::packet_receiver::PacketReceiver::handle_datagram")
+        fa = cx.fa(b, kill_fields=False)
+        pk = r"AssemblyWindow::try_add\(.*\)@Some\.0"
+        ch_base = r"Option::unwrap_or\(arg1\.channels\[cast<usize>\(arg2\.channel_id\)\]\.base_id,arg1\.base_id\)"
+        cl = r"cast<u32>\(%s\.channel_parent_lead\)" % pk
+        wl = r"cast<u32>\(%s\.window_parent_lead\)" % pk
+        cd = r"packet_id::sub\(arg2\.sequence_id,%s\)" % ch_base
+        wd = r"packet_id::sub\(arg2\.sequence_id,arg1\.base_id\)"
+        sets = [(l, "channel_ready_flags |= bit") for l, node, ps in b.field_writes(r"arg1\.channel_ready_flags") if show(b.rvalue_expr(node["rv"])).startswith("bitor(")]
+        if len(sets) != 1:
+            inst.violation(b.path, "channel_ready_flags set", "expected exactly one site raising channel_ready_flags in handle_datagram, found %d" % len(sets))
+        cx.guard(inst, b, sets, [[r"eq\(0,%s\)" % cl], [r"lt\(%s,%s\)" % (cd, cl)]], construct="channel readiness test differs from the delivery test",
+                 why="readiness must be measured against the channel base, like the delivery test in receive()", checked_before=True)
+        wsets = [(l, "window_ready_flag = true") for l, node, ps in b.field_writes(r"arg1\.window_ready_flag") if show(b.rvalue_expr(node["rv"])) == "true"]
+        if len(wsets) != 1:
+            inst.violation(b.path, "window_ready_flag set", "expected exactly one site raising window_ready_flag in handle_datagram, found %d" % len(wsets))
+        cx.guard(inst, b, wsets, [[r"eq\(0,%s\)" % wl], [r"lt\(%s,%s\)" % (wd, wl)]], construct="window readiness test differs from the advance test", checked_before=True)
+        # exactness: the edges that skip the flag are taken only under the negation
+        for rx_pos, rx_neg, nm in (((cl, cd), None, "channel"), ((wl, wd), None, "window")):
+            lead, dist = rx_pos
+            for bb in sorted(b.reachable):
+                t = b.term(bb)
+                if t["k"] != "switch":
+                    continue
+                for y, lab in b.succ[bb]:
+                    lits = fa.edge_lits.get((bb, y, lab[1]), [])
+                    for l in lits:
+                        m1 = re.fullmatch(r"le\((%s),(.*)\)" % lead, l)
+                        if m1 and not re.fullmatch(dist, m1.group(2)):
+                            inst.violation(b.path, "%s readiness skipped on a different distance" % nm, "the %s-ready flag is withheld when lead <= `%s`, which is not the distance used at delivery time" % (nm, m1.group(2)[:90]))
+
+
 def run(cx):
+    inst_readiness_siblings(cx, "C02.f")
     inst_parents(cx, "C02.a")
     inst_delivery_guards(cx, "C02.b")
     inst_resync_guard(cx, "C02.c")
